@@ -275,3 +275,7 @@ fn c04_iter_mpls_terminate() {
     kani::cover!(n == 8, "full stack");
     kani::cover!(n == 1 && len >= 8, "bottom-of-stack ends iteration early");
 }
+
+/// Harness-side mutable statics to reset between native witness-search trials (none here).
+#[allow(dead_code)]
+fn verif_reset_statics() {}
